@@ -80,7 +80,10 @@ def apply(spec, p, rng):
         kids = [old, fail] if rng.random() < 0.5 else [fail, old]
         parent[p[2][-1]] = [rng.choice(["t", "l"]), kids]
     elif kind == "item":
-        spec["faults"]["items"]["%d:%s" % (p[1], p[2])] = rng.choice(["err", "unset"])
+        f = rng.choice(["err", "unset"])
+        if f == "err" and (p[1] + p[2]) % 3 == 0:
+            f = "err_stop"  # the item's error is a StopIteration instance
+        spec["faults"]["items"]["%d:%s" % (p[1], p[2])] = f
     elif kind == "flush":
         if rng.random() < 0.3:
             spec["faults"]["flushes"]["%d#%d" % (p[1], p[2])] = {"cancel_self_at": rng.randint(0, 2)}
